@@ -299,6 +299,27 @@ fn gen_brk(r: &mut Rng, thorough: bool, big: bool) -> Sc {
             }
         }
     }
+    // one run in 96: the guest asks for a heap at the handler's resource limit - exactly 256 MiB, one byte or one
+    // page less, one byte or one page more (only the last two may be refused) - uses its top and gives it back
+    if !big && r.chance(1, 96) {
+        let k = *r.pick(&[0i64, 0, 0, -1, 1, -0x1000, 0x1000]);
+        let delta = HEAP_CAP as i64 - 0x1000 + k; // relative to the initial break = heap start + 0x1000
+        // behind the first query (the guest keeps the initial break in RBX from there on)
+        let first_q = ops.iter().position(|o| matches!(o, Op::Brk0)).unwrap_or(0);
+        let at = first_q + 1 + r.below((ops.len() - first_q) as u64) as usize;
+        let val = r.next() | 1;
+        let tail = vec![
+            Op::BrkRel { delta },
+            Op::Store { off: (delta - 8).min(HEAP_CAP as i64 - 0x1000 - 8) as u64, val },
+            Op::Load { off: (delta - 8).min(HEAP_CAP as i64 - 0x1000 - 8) as u64 },
+            Op::Brk0,
+            Op::BrkRel { delta: *r.pick(&[0i64, 0x10, 0x1000, 0x2345]) },
+        ];
+        let at = at.min(ops.len());
+        for (i, o) in tail.into_iter().enumerate() {
+            ops.insert(at + i, o);
+        }
+    }
     // pre-existing areas at and around the addresses the heap placement probes first
     let mut blockers: Vec<(u64, u64)> = Vec::new();
     let nb = r.below(6);
@@ -446,8 +467,23 @@ struct MPipe {
     q: VecDeque<u8>,
 }
 
+/// the contents of areas above this size are not copied into snapshots (a heap at the handler's 256 MiB limit
+/// would otherwise be copied twice per operation); nothing compares the contents of such an area
+const SNAPSHOT_DATA_MAX: usize = 32 << 20;
+
+/// the largest heap the built-in brk handler provides (its documented resource limit, introduced with the repair
+/// of the aborting 1 TiB request): a heap of exactly this size must be granted, a larger one may be refused
+const HEAP_CAP: u64 = 0x1000_0000;
+
 fn area_snapshot(ax: &Axecutor) -> Vec<(u64, u64, u32, Vec<u8>)> {
-    let mut v: Vec<(u64, u64, u32, Vec<u8>)> = ax.verif_areas().into_iter().map(|a| (a.start, a.length, a.access, a.data)).collect();
+    let mut v: Vec<(u64, u64, u32, Vec<u8>)> = if ax.verif_area_extents().iter().any(|e| e.3 > SNAPSHOT_DATA_MAX) {
+        ax.verif_area_extents()
+            .into_iter()
+            .map(|(st, len, acc, dl)| (st, len, acc, if dl > SNAPSHOT_DATA_MAX { Vec::new() } else { ax.verif_area_data(st).map(|d| d.to_vec()).unwrap_or_default() }))
+            .collect()
+    } else {
+        ax.verif_areas().into_iter().map(|a| (a.start, a.length, a.access, a.data)).collect()
+    };
     v.sort();
     v
 }
@@ -1042,8 +1078,14 @@ fn run_brk(sc: &Sc, ax: &mut Axecutor, marks: &[u64], _seen: &Rc<RefCell<Vec<(u6
                 // every area except the heap itself (an area the host put at the start of a still empty heap is not the heap)
                 let me = before.iter().position(|a| a.0 == hs && (heap_start == 0 || a.1 == heap_len));
                 let fits = p >= hs && !before.iter().enumerate().any(|(i, a)| Some(i) != me && intersects(hs, p - hs, a.0, a.1));
+                let beyond_cap = p >= hs && p - hs > HEAP_CAP;
+                if p >= hs && p - hs >= HEAP_CAP - 0x1000 && p - hs <= HEAP_CAP {
+                    ctx.probe("brk_request_at_heap_limit");
+                }
                 let kind = if p < b {
                     "below_base"
+                } else if beyond_cap {
+                    "beyond_limit"
                 } else if p > brk {
                     if shrunk && p <= max_k {
                         "regrow"
@@ -1068,6 +1110,16 @@ fn run_brk(sc: &Sc, ax: &mut Axecutor, marks: &[u64], _seen: &Rc<RefCell<Vec<(u6
                     shadow.clear();
                     // where the break is now is not defined by the statement: queries are not judged until the next grow
                     unknown_break = true;
+                } else if beyond_cap {
+                    // more than the handler's resource limit: it may be refused (unchanged break) or granted
+                    ctx.fault("brk_beyond_heap_limit");
+                    if ok && rax_after == p {
+                        brk = p;
+                        unknown_break = false;
+                        max_k = max_k.max(p);
+                    } else if ok && rax_after != brk && !unknown_break {
+                        ctx.dev("C13", format!("C13|{kind}|return_value"), format!("refused brk({p:#x}) returned {rax_after:#x}, neither the request nor the unchanged break {brk:#x}"));
+                    }
                 } else if fits {
                     if !ok {
                         ctx.dev("C13", format!("C13|{kind}|failed"), format!("brk({p:#x}) failed although [{hs:#x}, {p:#x}) collides with no other area: {out:?}"));
